@@ -101,16 +101,24 @@ Theorem C11_simul : forall Hf c ops,
 Proof. exact alt_always. Qed.
 Print Assumptions C11_simul.
 
-(* The crossing case itself: with the own KEXINIT already out, the peer's KEXINIT writes nothing,
-   starts the (single) exchange and is not an error. *)
+(* The crossing case itself: with the own KEXINIT already out (and the peer's NEWKEYS of the previous
+   exchange in), the peer's KEXINIT writes nothing, starts the (single) exchange and is not an error. *)
 Theorem C11_simul_cross : forall Hf c ops ext sp ts,
   forallb ext_ok ops = true ->
   let s := run Hf c ops init in
-  err s = None -> started s = true -> kexinit_sent (sn s) = true ->
+  err s = None -> started s = true -> kexinit_sent (sn s) = true -> staged s = None ->
   let s' := step Hf c s (RecvKexInit ext sp, ts) in
   wire (sn s') = wire (sn s) /\ kex_active s' = true /\ kexinit_sent (sn s') = false /\ err s' = None.
 Proof. intros Hf c ops ext sp ts X s. apply cross_one_exchange. apply Inv_reach. exact X. Qed.
 Print Assumptions C11_simul_cross.
+
+(* A KEXINIT that arrives while our NEWKEYS is out and the peer's is not yet in is rejected: exchanges
+   cannot overlap, so staged keys always belong to the exchange whose NEWKEYS consumes them. *)
+Theorem C11_kexinit_before_newkeys : forall Hf c s ext sp ts,
+  err s = None -> started s = true -> staged s <> None ->
+  err (step Hf c s (RecvKexInit ext sp, ts)) = Some E_KEX_IN_PROGRESS.
+Proof. exact kexinit_before_newkeys. Qed.
+Print Assumptions C11_kexinit_before_newkeys.
 
 (* A NEWKEYS with no staged keys (outside an exchange, or a second one inside it) is rejected and
    changes no receive key ... *)
